@@ -91,6 +91,7 @@ func addSafely(l list.AclList, raw *consensusproto.RawRecordWithId) (err error, 
 type asked struct{ prop, stream, line, impl string }
 
 type session struct {
+	c03walks int
 	q        []asked
 	r        *corr.Run
 	c        *cast
